@@ -2,7 +2,7 @@
 # Runs every thorough tier once, sequentially (validation of the thorough tiers; not evidence).
 cd "$(dirname "$0")/.."
 ./check build >/dev/null 2>&1
-for p in C06 C17 C10 C14 C16 C15 C09 C13 C03 C02 C04 C01 C05 C07 C08 C12 C11; do
+for p in ${THOROUGH_LIST:-C06 C17 C10 C14 C16 C15 C09 C13 C03 C02 C04 C01 C05 C07 C08 C12 C11}; do
   s=$(date +%s)
   out=$(./check $p thorough 2>&1); rc=$?
   echo "$p exit=$rc $(( $(date +%s) - s ))s :: $(echo "$out" | grep -E "^$p thorough" | cut -c1-160)"
